@@ -74,6 +74,7 @@ pub fn run_case(case: &[u8]) -> String {
                     Err(_) => Ok("NOT-UTF8".to_string()),
                 }
             }
+            10 => crate::query::case_valve(&mut rd),
             _ => Err(()),
         }
     }));
